@@ -105,6 +105,13 @@ class Check:
             print('KNOWN-FINDING: property=%s %s [%s] (%d cases in this run)'
                   % (self.prop, f['description'], fid, count))
         replay_paths = []
+        if self.violations and os.environ.get('VT4_HIST'):
+            hist = {}
+            for sig, _case in self.violations:
+                key = json.dumps({k: v for k, v in sig.items() if k != 'where'}, sort_keys=True, default=str)
+                hist[key] = hist.get(key, 0) + 1
+            for key, n in sorted(hist.items()):
+                print('[hist] %5d %s' % (n, key), file=sys.stderr)
         if self.violations:
             os.makedirs(REPLAY, exist_ok=True)
             seen = set()
